@@ -54,12 +54,19 @@ func Load(o Options) (*Program, error) {
 	if o.GOARCH != "" {
 		env = append(env, "GOARCH="+o.GOARCH)
 	}
+	// models of a few standard iterator constructors are compiled into the analysed package
+	// (an extra file that exists only in this overlay), so that the engine can inline them
+	ov := map[string][]byte{}
+	for k, v := range o.Overlay {
+		ov[k] = v
+	}
+	ov[filepath.Join(o.Dir, ModelsFile)] = []byte(modelsSource)
 	cfg := &packages.Config{
 		Mode:    packages.LoadSyntax,
 		Dir:     o.Dir,
 		Env:     env,
 		Tests:   false,
-		Overlay: o.Overlay,
+		Overlay: ov,
 	}
 	if len(o.Tags) > 0 {
 		cfg.BuildFlags = []string{"-tags=" + strings.Join(o.Tags, ",")}
@@ -92,11 +99,64 @@ func Load(o Options) (*Program, error) {
 	prog.Build()
 	out := &Program{Dir: o.Dir, Fset: p.Fset, Pkg: p, Types: p.Types, Info: p.TypesInfo, Files: p.Syntax, Prog: prog, SSA: ssapkgs[0]}
 	for _, f := range p.CompiledGoFiles {
+		if filepath.Base(f) == ModelsFile {
+			continue
+		}
 		out.Names = append(out.Names, filepath.Base(f))
 	}
 	sort.Strings(out.Names)
 	return out, nil
 }
+
+// ModelsFile is the name of the synthetic file with the iterator models; ModelPrefix the
+// prefix of the functions it declares.
+const (
+	ModelsFile  = "zz_flytsa_models.go"
+	ModelPrefix = "flytsaModel"
+)
+
+// modelsSource: what slices.All / slices.Values / maps.All / maps.Insert do, written over
+// `any` (the engine is untyped where it matters). They are only ever entered through the
+// engine's redirection of calls to the library functions of the same name.
+const modelsSource = `package flyt
+
+func flytsaModelSlicesAll(s []any) func(yield func(int, any) bool) {
+	return func(yield func(int, any) bool) {
+		for i, v := range s {
+			if !yield(i, v) {
+				return
+			}
+		}
+	}
+}
+
+func flytsaModelSlicesValues(s []any) func(yield func(any) bool) {
+	return func(yield func(any) bool) {
+		for _, v := range s {
+			if !yield(v) {
+				return
+			}
+		}
+	}
+}
+
+func flytsaModelMapsAll(m map[string]any) func(yield func(string, any) bool) {
+	return func(yield func(string, any) bool) {
+		for k, v := range m {
+			if !yield(k, v) {
+				return
+			}
+		}
+	}
+}
+
+func flytsaModelMapsInsert(m map[string]any, seq func(yield func(string, any) bool)) {
+	seq(func(k string, v any) bool {
+		m[k] = v
+		return true
+	})
+}
+`
 
 // Func returns the package-level function with the given name.
 func (p *Program) Func(name string) *ssa.Function {
